@@ -222,8 +222,6 @@ func (p *Program) instrWrites(in ssa.Instruction, includeFresh bool, out map[str
 			if includeFresh {
 				out[S.ElemKey(types.Typ[types.Uint8]).Name] = true
 			}
-		case "(*sync.Mutex).Lock", "(*sync.RWMutex).Lock", "(*sync.RWMutex).RLock", "(*sync.Mutex).Unlock", "(*sync.RWMutex).Unlock", "(*sync.RWMutex).RUnlock":
-			out["LOCK!held"] = true
 		}
 		if name != "" && stdlibArgWriters[name] {
 			for _, a := range c.Args {
@@ -392,4 +390,99 @@ func (p *Program) FrameViolations(fn *ssa.Function, c *FuncContract) (bad []stri
 	}
 	sort.Strings(bad)
 	return bad, s.All
+}
+
+// ---- lock discipline (ghost): which functions touch guarded fields / take the guarding mutex ----
+
+type lockInfo struct {
+	accesses bool // touches a guarded field directly
+	takes    bool // calls Lock on the guarding mutex
+	needs    bool // must be called with the mutex held
+	calls    []*ssa.Function
+}
+
+func (p *Program) guardFor(T types.Type) *GuardSpec {
+	named, ok := T.(*types.Named)
+	if !ok || named.Obj().Pkg() == nil {
+		return nil
+	}
+	for _, g := range p.Contracts.Guards {
+		if g.Pkg == named.Obj().Pkg().Path() && g.Type == named.Obj().Name() {
+			return g
+		}
+	}
+	return nil
+}
+
+// BuildLockInfo computes, for every module function, whether it needs the guarding mutex held by its caller.
+func (p *Program) BuildLockInfo() {
+	p.Lock = map[*ssa.Function]*lockInfo{}
+	if len(p.Contracts.Guards) == 0 {
+		return
+	}
+	for _, fn := range p.AllFuncs {
+		li := &lockInfo{}
+		p.Lock[fn] = li
+		for _, b := range fn.Blocks {
+			for _, in := range b.Instrs {
+				switch i := in.(type) {
+				case *ssa.FieldAddr:
+					pt := i.X.Type().Underlying().(*types.Pointer).Elem()
+					if g := p.guardFor(pt); g != nil {
+						name := pt.Underlying().(*types.Struct).Field(i.Field).Name()
+						if g.Fields[name] {
+							li.accesses = true
+						}
+					}
+				case ssa.CallInstruction:
+					c := i.Common()
+					if name := p.libCallName(c); name == "(*sync.Mutex).Lock" && len(c.Args) == 1 {
+						if fa, ok := c.Args[0].(*ssa.FieldAddr); ok {
+							pt := fa.X.Type().Underlying().(*types.Pointer).Elem()
+							if g := p.guardFor(pt); g != nil && pt.Underlying().(*types.Struct).Field(fa.Field).Name() == g.Mutex {
+								li.takes = true
+							}
+						}
+					}
+					if f := staticCalleeOf(c); f != nil && p.InModule(f) {
+						if _, isGo := in.(*ssa.Go); !isGo {
+							li.calls = append(li.calls, f)
+						}
+					}
+				}
+			}
+		}
+	}
+	for changed := true; changed; {
+		changed = false
+		for _, fn := range p.AllFuncs {
+			li := p.Lock[fn]
+			if li.takes || li.needs || p.Contracts.LockExempt[FuncKey(fn)] || p.Contracts.LockEntry[FuncKey(fn)] {
+				continue
+			}
+			n := li.accesses
+			for _, c := range li.calls {
+				if cl := p.Lock[c]; cl != nil && cl.needs {
+					n = true
+				}
+			}
+			if n {
+				li.needs = true
+				changed = true
+			}
+		}
+	}
+}
+
+func staticCalleeOf(c *ssa.CallCommon) *ssa.Function {
+	if c.IsInvoke() {
+		return nil
+	}
+	switch v := c.Value.(type) {
+	case *ssa.Function:
+		return v
+	case *ssa.MakeClosure:
+		return v.Fn.(*ssa.Function)
+	}
+	return nil
 }
